@@ -782,7 +782,7 @@ def scanner_literal_agreement(chk, rid):
     quotes = set()
     for e, val in ps.guards(n):
       if val and isinstance(e, ast.Compare) and isinstance(e.ops[0], ast.Eq) and \
-          norm(e.left) in ('s[0]', 's[:3]') and const_str(e.comparators[0]):
+          norm(ps.expand(e.left, 2)) in ('s[0]', 's[:3]') and const_str(e.comparators[0]):
         quotes.add(const_str(e.comparators[0]))
     value = ps.expand(r.value, 3)
     calls = [c for c in ast.walk(value) if isinstance(c, ast.Call)]
